@@ -251,6 +251,14 @@ class FakeTransport(asyncio.Transport):
 
         self.loop.io_at(self.loop.ticks + delay, self, d)
 
+    def sync_error(self, exc: Exception):
+        """The send itself fails (stock datagram transport: sendto() catches the OSError of socket.send and calls
+        error_received() before it returns).  Only meaningful while sendto() is on the stack: the peer callback calls it."""
+        if self.closing:
+            return
+        self.loop.rec("ERR", tr=self.id, err=getattr(exc, "errno", None))
+        self.protocol.error_received(exc)
+
     def send_error(self, exc: Exception, delay: int = 0):
         """ICMP-style asynchronous error reported through error_received (UDP)."""
 
